@@ -537,3 +537,15 @@ theorem parsePdu_char (r : Req) (hwf : r.WF) (s : UInt8) (hs : Reply.reqSid r = 
         rw [hcond]
         simp only [Bool.false_eq_true, if_false]
         rw [matches_spec _ x hd _ s hq hqwf hor, hecho]
+
+theorem accepted_decoded {b : Bytes} {r : Req} {x : Resp} (h : parsePdu b r = .accepted x) : decodeResp b = .ok x := by
+  unfold parsePdu at h
+  split at h
+  · split at h
+    · repeat' split at h
+      all_goals cases h
+    · rename_i y hy
+      simp only at h
+      repeat' split at h
+      all_goals first | (cases h; exact hy) | cases h
+  · cases h
